@@ -146,8 +146,12 @@ def main():
     out = os.open(os.path.join(casedir, "stdout.txt"), os.O_WRONLY | os.O_CREAT | os.O_APPEND, 0o644)
     err = os.open(os.path.join(casedir, "stderr.txt"), os.O_WRONLY | os.O_CREAT | os.O_APPEND, 0o644)
     t0 = mono()
+    drv_cmd = [case.get("python", sys.executable), os.path.join(verif, "harness", "site", "lv_driver.py"), casedir]
+    if case.get("config", {}).get("driver_as_module"):
+        # launched like `python -m package.module`: __main__.__spec__ is set
+        drv_cmd = [case.get("python", sys.executable), "-m", "lv_driver", casedir]
     drv = subprocess.Popen(
-        [case.get("python", sys.executable), os.path.join(verif, "harness", "site", "lv_driver.py"), casedir],
+        drv_cmd,
         stdin=subprocess.DEVNULL,
         stdout=out,
         stderr=err,
